@@ -215,7 +215,12 @@ TOP_IMPORTS = ["RE_IMPORT_LED", "RE_IMPORT_SLEEP", "RE_IMPORT_SERIAL", "RE_IMPOR
 
 def do_regex(t):
     out = [bool(getattr(P, n).match(t)) for n in REGEXES]
-    out.append(any(getattr(P, n).match(t) for n in TOP_IMPORTS))
+    if hasattr(P, "RE_IMPORT_ANY"):
+        # since "fix: reject statements the transpiler cannot translate instead of dropping them": parse() asks _import_end,
+        # which decides with this one pattern (checked by the translator harness/gen/linerx.py)
+        out.append(bool(P.RE_IMPORT_ANY.match(t)))
+    else:
+        out.append(any(getattr(P, n).match(t) for n in TOP_IMPORTS))
     return out
 
 
@@ -361,7 +366,13 @@ def do_dispatch(line, sets):
         for n in RX_NAMES:
             setattr(P, n, RX_REAL[n])
         P._handle_assignment_ast = orig_asg
-    return {"trace": [list(t) for t in RXLOG], "asg": (asg[0] if asg else None), "exc": exc,
+    try:
+        import ast as _ast
+        _ast.parse(line, mode="eval")
+        isexpr = True
+    except SyntaxError:
+        isexpr = False
+    return {"trace": [list(t) for t in RXLOG], "asg": (asg[0] if asg else None), "exc": exc, "isexpr": isexpr,
             "nodes": None if nodes is None else [type(x).__name__ for x in nodes],
             "repr": None if nodes is None else repr(nodes),
             "ignored": None if hook is None else [list(e) for e in hook]}
